@@ -161,10 +161,10 @@ func c16Scenarios(cfg runCfg) []Scenario {
 		}
 	}
 	// the failing run finds a usable fail file (of an earlier run, with other captured output) and reproduces from it
-	for i := 0; i < cfg.n(8, 6); i++ {
+	for i := 0; i < cfg.n(12, 6); i++ {
 		if cfg.mine(i) {
 			out = append(out, Scenario{Family: "crash", Seed: mix(cfg.seed, 16, 56, uint64(i)), N: []int{1, 3, 40}[i%3], K: []int{0, 1, 10, 100}[(i/3)%4], S: names[i%len(names)],
-				X: map[string]string{"existing": []string{"glob", "flag"}[i%2]}})
+				X: map[string]string{"existing": []string{"glob", "flag", "flag-elsewhere"}[i%3]}})
 		}
 	}
 	// faults: a system call of the save fails (disk full, permissions, rename across devices ...), and the process is
@@ -257,7 +257,7 @@ func (sc Scenario) c16Env() []string {
 	if ex := sc.X["explicit"]; ex != "" {
 		env = append(env, "C16_FAILFILE="+c16ExplicitPath(sc))
 	}
-	if sc.X["existing"] == "flag" {
+	if strings.HasPrefix(sc.X["existing"], "flag") {
 		env = append(env, "C16_FAILFILE="+c16ExistingPath(sc))
 	}
 	if sc.X["existing"] != "" {
@@ -835,6 +835,9 @@ func c16Explicit(sc Scenario, res *Result, base string) {
 }
 
 func c16ExistingPath(sc Scenario) string {
+	if sc.X["existing"] == "flag-elsewhere" {
+		return filepath.Join("saved", "case.fail") // kept outside the test's own directory (an issue tracker attachment, say)
+	}
 	san := sanitize(sc.S)
 	return filepath.Join("testdata", "rapid", san, san+"-20200101000000-1.fail")
 }
@@ -893,7 +896,8 @@ func c16Existing(sc Scenario, res *Result, base string) {
 	os.Chdir(refDir)
 	fref, _, _ := listFailDir(name)
 	os.Chdir(wd)
-	if len(fref) != 1 {
+	elsewhere := sc.X["existing"] == "flag-elsewhere"
+	if (!elsewhere && len(fref) != 1) || (elsewhere && len(fref) > 1) {
 		res.inconclusive(fmt.Sprintf("the failure was not reproduced from the existing fail file (%d fail files after the run)", len(fref)))
 		return
 	}
@@ -923,7 +927,13 @@ func c16Existing(sc Scenario, res *Result, base string) {
 			}
 		}
 		if !seen {
-			res.violate(sc, "c16/existing-lost", what+": the fail file the run reproduced from is gone", detail)
+			if b, err := os.ReadFile(expl); err != nil || !bytes.Equal(b, old) {
+				if _, _, w, _, perr := readFailFile(expl); err != nil || perr != nil || !wordsEqual(w, oldWords) {
+					res.violate(sc, "c16/existing-lost", what+": the fail file the run reproduced from is gone or no longer complete", detail)
+				}
+			} else {
+				res.inc("existing_file_untouched")
+			}
 		}
 	}
 	judge(refDir, "uninterrupted run", map[string]any{"trace": traceStr(saveTrace, 40)})
